@@ -244,6 +244,63 @@ func (r *recorder) lineage(steps int, seed int64) error {
 				}
 			}
 		}
+		// edits of the living organism's genome that keep the node set and the NUMBER of enabled genes (a change of an
+		// activation type, of a recurrence flag, an enabled and a disabled gene trading places, a weight): UpdatePhenotype
+		// must express the genome as it is now, whatever the network it replaces looked like
+		if s%3 != 0 {
+			gg := org.Genotype
+			how2 := ""
+			switch s % 4 {
+			case 0, 1:
+				var cand []*network.NNode
+				for _, n := range gg.Nodes {
+					if n.IsNeuron() {
+						cand = append(cand, n)
+					}
+				}
+				if len(cand) > 0 {
+					n := cand[rand.Intn(len(cand))]
+					if n.ActivationType == neatmath.TanhActivation {
+						n.ActivationType = neatmath.LinearActivation
+					} else {
+						n.ActivationType = neatmath.TanhActivation
+					}
+					how2 = "activation type of a neuron changed"
+				}
+			case 2:
+				var en, dis []*genetics.Gene
+				for _, x := range gg.Genes {
+					if x.IsEnabled {
+						en = append(en, x)
+					} else {
+						dis = append(dis, x)
+					}
+				}
+				if len(en) > 0 && len(dis) > 0 {
+					en[rand.Intn(len(en))].IsEnabled = false
+					dis[rand.Intn(len(dis))].IsEnabled = true
+					how2 = "an enabled gene disabled and a disabled gene enabled"
+				} else if len(en) > 0 {
+					en[rand.Intn(len(en))].Link.ConnectionWeight += 1
+					how2 = "weight of a gene changed"
+				}
+			default:
+				x := gg.Genes[rand.Intn(len(gg.Genes))]
+				twin := false
+				for _, y := range gg.Genes {
+					twin = twin || (y != x && y.Link.InNode.Id == x.Link.InNode.Id && y.Link.OutNode.Id == x.Link.OutNode.Id)
+				}
+				if !twin {
+					x.Link.IsRecurrent = !x.Link.IsRecurrent
+					how2 = "recurrence flag of a gene changed"
+				}
+			}
+			if how2 != "" {
+				if err := org.UpdatePhenotype(); err == nil {
+					r.observe("lineage", how+", then "+how2+" on the organism's genome/UpdatePhenotype", 0, s, org)
+				}
+			}
+		}
 		if len(pool) < 40 {
 			pool = append(pool, g)
 		} else {
